@@ -39,6 +39,8 @@ Events (JSON lists)
 ``['timer', i]``            periodic event for algorithm i fires (``schedule.defer`` with a boot moment)
 ``['tick']``                one ``farm.dispatch()``
 ``['noop']``                nothing happens (lets an oracle look at the state right after the load)
+``['expect-idle']``         nothing happens; marks the end of a history that was run to quiescence (workers
+                            always answered, no further external event) so the oracle can check the end state
 ``['reply', tag, target, k, outcome]``  the k-th worker holding unit tag[target] answers; outcome is
                             ``'S' + subset of 'pq'`` (success, those values new), ``'F'`` failure, ``'I'`` invalid
 '''
@@ -939,7 +941,7 @@ class Sim:
                 self._tick(rec)
             elif kind == 'reply':
                 self._reply(ev, rec)
-            elif kind == 'noop':
+            elif kind in ('noop', 'expect-idle'):
                 pass  # observe the state as it is (used to look at the state right after the load)
             else:
                 raise ValueError('unknown event %r' % (ev,))
@@ -1076,9 +1078,37 @@ class Monitor:
         '''returns a list of violations {'clause','signature','observed','expected'}'''
         return []
 
-    def not_quiescent(self, sim):
-        '''violations to report when a drained history (workers always answer) did not reach quiescence'''
-        return []
+
+def purged_in_flight(rec, purged):
+    '''ghost shared by C02/C03/C05: the in-flight units whose target was removed from their node's `doing` by
+    the failure/invalid reply of ANOTHER unit while they were executing.  Only used to give a dropped reply a
+    stable signature (the KNOWN finding 'reply-after-purge-of-executing-dependent').  Returns the new set.'''
+    if rec['ev'][0] != 'reply':
+        return purged
+    r = rec['reply']
+    unit = tuple(r['unit'])
+    pre, post = rec['pre'], rec['post']
+    cur = set(purged)
+    cur.discard(unit)
+    if r['state'] != 'success':
+        for tag, tgt in set(post['running']):
+            if (tag, tgt) != unit and tgt in pre['nodes'][tag]['doing'] and (
+                tgt not in post['nodes'][tag]['doing']
+            ):
+                cur.add((tag, tgt))
+    return frozenset(u for u in cur if u in set(post['running']))
+
+
+def dropped_signature(rec, purged, otherwise):
+    '''signature for a reply that never reached schedule.complete'''
+    unit = tuple(rec['reply']['unit'])
+    if not rec['trace']['complete']:
+        return (
+            'reply-after-purge-of-executing-dependent'
+            if unit in purged
+            else 'reply-dropped-job-not-in-queue'
+        )
+    return otherwise
 
 
 def common_violations(prop, rec):
@@ -1121,14 +1151,17 @@ class Result:
         self.states = 0
         self.walks = 0
         self.unconfirmed = 0
+        self.unconfirmed_list = []
 
-    def add_violation(self, u, hist, v):
+    def add_violation(self, u, hist, v, extra=None):
         k = (v['clause'], v['signature'])
         cur = self.found.get(k)
         size = (len(hist), u.spec.n, len(u.targets), u.workers)
         if cur is None or size < cur['_size']:
             nv = dict(v)
             nv['input'] = {'universe': u.to_json(), 'history': [list(e) for e in hist]}
+            if extra:
+                nv['input'].update(extra)
             nv['_size'] = size
             self.found[k] = nv
 
@@ -1287,18 +1320,25 @@ def replay_history(universe, history, monitor_factory, tmp=None):
         sim.close()
 
 
-def confirm(result, monitor_factory, tmp=None):
-    '''keep only violations that reproduce on a fresh linear replay of their history'''
+def confirm(result, monitor_factory, tmp=None, special=None):
+    '''keep only violations that reproduce on a fresh linear replay of their history (`special(input)` re-runs
+    inputs that are not plain event histories and returns the violations it saw)'''
     final = []
     for k in sorted(result.found):
         v = result.found[k]
         u = Universe.from_json(v['input']['universe'])
-        got = replay_history(u, v['input']['history'], monitor_factory, tmp)
+        if special is not None and v['input'].get('special'):
+            got = [(0, x) for x in special(v['input'])]
+        else:
+            got = replay_history(u, v['input']['history'], monitor_factory, tmp)
         if any((x['clause'], x['signature']) == k for _i, x in got):
             nv = {kk: vv for kk, vv in v.items() if not kk.startswith('_')}
             final.append(nv)
         else:
             result.unconfirmed += 1
+            result.unconfirmed_list.append(
+                {'clause': k[0], 'signature': k[1], 'input': v['input'], 'replay_saw': [x for _i, x in got][:3]}
+            )
     return final
 
 
@@ -1355,8 +1395,12 @@ def explore_job(job, monitor_factory, frontier_hook=None):
                 sim, mon, wcfg, rng, job.get('walk_len', 7), res,
                 bias=job.get('bias'), drain_outcomes=job.get('drain'),
             )  # fmt: skip
-            if job.get('drain') is not None and quiescent is False:
-                for v in mon.not_quiescent(sim):
+            if job.get('drain') is not None:
+                # end of a drained history: the oracle may now state what must hold at quiescence
+                ev = ['expect-idle']
+                rec = sim.step(ev)
+                hist = hist + [ev]
+                for v in mon.after(sim, ev, rec):
                     res.add_violation(u, hist, v)
             if w == 0 and job.get('sample'):
                 res.samples.append({'universe': u.to_json(), 'history': hist})
@@ -1406,14 +1450,14 @@ def tier_jobs(tier, seed, deadline, cfg, walk_cfg, drain=None, bias=None, depth_
     return jobs
 
 
-def run_tier(prop, tier, seed, jobs, job_fn, monitor_factory, rule, clauses, t0):
+def run_tier(prop, tier, seed, jobs, job_fn, monitor_factory, rule, clauses, t0, special=None):
     parts = run_parallel(job_fn, jobs, 1 if tier == 'quick' else 16)
     res = Result()
     for p in parts:
         res.merge(p)
     # "exhaustive" is claimed for the BFS part only: every reachable (state, event) transition within the
     # stated depth of every universe of the tier was executed (no cap / deadline truncation)
-    out = finish(prop, res, monitor_factory, rule, True, clauses)
+    out = finish(prop, res, monitor_factory, rule, True, clauses, special=special)
     out['wall_s'] = round(time.time() - t0, 2)
     out['universes'] = len(jobs)
     out['bfs_depths'] = sorted({j['depth'] for j in jobs})
@@ -1460,8 +1504,8 @@ def run_parallel(fn, jobs, procs):
     return res
 
 
-def finish(prop, result, monitor_factory, rule, exhaustive, clauses, bound_note=''):
-    viol = confirm(result, monitor_factory)
+def finish(prop, result, monitor_factory, rule, exhaustive, clauses, bound_note='', special=None):
+    viol = confirm(result, monitor_factory, special=special)
     out = {
         'cases': result.cases,
         'distinct': len(result.distinct),
@@ -1475,6 +1519,7 @@ def finish(prop, result, monitor_factory, rule, exhaustive, clauses, bound_note=
         'max_depth': result.max_depth,
         'truncated': result.truncated,
         'unconfirmed': result.unconfirmed,
+        'unconfirmed_list': result.unconfirmed_list[:5],
     }
     if bound_note:
         out['bound_note'] = bound_note
